@@ -24,6 +24,7 @@ structure RInv (store : Store) (rs : List Resource) (vi : List (String × Nat)) 
   ctx : Ctx rs V env
   names : env.map (·.1) = vi.map (·.1)
   neg : negU V un = b
+  pos : VPos V
 
 theorem Fill.get {store : Store} {vals : List BVal} {un : List (Nat × String)} {V : List BVal} (h : Fill store vals un V)
     {i : Nat} {v : BVal} (hv : V[i]? = some v) (hnm : ∀ s n, v ≠ .mon s n) : vals[i]? = some v := by
@@ -181,7 +182,7 @@ theorem Ctx.snoc {rs : List Resource} {V : List BVal} {env env' : VEnv} (cx : Ct
 
 theorem lit_step {store : Store} {vars : List (String × BVal)} {rs : List Resource} {vi : List (String × Nat)} {R : Resolved}
     {V : List BVal} {env : VEnv} {b : Bool} (hi : RInv store rs vi R.vals R.unresolved V env b) {r : Resource}
-    (hl : r.isLit = true) (hwf : WFres (rs ++ [r])) :
+    (hl : r.isLit = true) (hwf : WFres (rs ++ [r])) (hpos : TablePos (rs ++ [r])) :
     ∃ R' v, resolveOne store vars R r = .ok R' ∧ R'.vals = R.vals ++ [v] ∧ R'.unresolved = R.unresolved ∧
       RInv store (rs ++ [r]) vi R'.vals R'.unresolved (V ++ [v]) env b := by
   have hlenV : V.length = rs.length := hi.ctx.typed.len
@@ -189,7 +190,8 @@ theorem lit_step {store : Store} {vars : List (String × BVal)} {rs : List Resou
   cases r with
   | const c =>
     refine ⟨_, c, rfl, rfl, rfl, ?_⟩
-    exact ⟨hi.fill.snoc_plain c, hi.ctx.snoc (.const c) c (fun _ _ h => h) rfl rfl, hi.names, by rw [negU_snoc c hb]; exact hi.neg⟩
+    exact ⟨hi.fill.snoc_plain c, hi.ctx.snoc (.const c) c (fun _ _ h => h) rfl rfl, hi.names, by rw [negU_snoc c hb]; exact hi.neg,
+      hi.pos.snoc (by intro r hr; subst hr; exact hpos r (by simp))⟩
   | monetary a k =>
     have hw := hwf rs.length (.monetary a k) (by simp)
     simp only at hw
@@ -197,7 +199,7 @@ theorem lit_step {store : Store} {vars : List (String × BVal)} {rs : List Resou
     have hR : R.vals[a]? = some (.asset s) := hi.fill.get hs (by intro _ _ h; cases h)
     refine ⟨{ R with vals := R.vals ++ [.mon s k] }, .mon s k, by simp only [resolveOne, hR], rfl, rfl, ?_⟩
     exact ⟨hi.fill.snoc_plain _, hi.ctx.snoc (.monetary a k) (.mon s k) (fun _ _ h => h) rfl ⟨s, hs, rfl⟩, hi.names,
-      by rw [negU_snoc _ hb]; exact hi.neg⟩
+      by rw [negU_snoc _ hb]; exact hi.neg, hi.pos.snoc (by intro r hr; cases hr)⟩
   | var _ _ => cases hl
   | varMeta _ _ _ _ => cases hl
   | varBalance _ _ _ => cases hl
@@ -237,7 +239,7 @@ theorem WFres.prefix {rs suf : List Resource} (h : WFres (rs ++ suf)) : WFres rs
 
 theorem lits_step {store : Store} {vars : List (String × BVal)} {vi : List (String × Nat)} {env : VEnv} {b : Bool}
     {suf : List Resource} (hl : ∀ r ∈ suf, r.isLit = true) {rs : List Resource} {R : Resolved} {V : List BVal}
-    (hi : RInv store rs vi R.vals R.unresolved V env b) (hwf : WFres (rs ++ suf)) :
+    (hi : RInv store rs vi R.vals R.unresolved V env b) (hwf : WFres (rs ++ suf)) (hpos : TablePos (rs ++ suf)) :
     ∃ R' V', resolveLoop store vars suf R = .ok R' ∧ R'.unresolved = R.unresolved ∧
       RInv store (rs ++ suf) vi R'.vals R'.unresolved V' env b := by
   induction suf generalizing rs R V with
@@ -246,8 +248,13 @@ theorem lits_step {store : Store} {vars : List (String × BVal)} {vi : List (Str
     have hwf1 : WFres (rs ++ [r]) := by
       have : rs ++ r :: suf = (rs ++ [r]) ++ suf := by simp
       rw [this] at hwf; exact hwf.prefix
-    obtain ⟨R1, v, h1, _, hu1, hi1⟩ := lit_step (vars := vars) hi (hl r (List.mem_cons_self ..)) hwf1
-    obtain ⟨R2, V2, h2, hu2, hi2⟩ := ih (fun x hx => hl x (List.mem_cons_of_mem _ hx)) hi1 (by simpa using hwf)
+    have hpos1 : TablePos (rs ++ [r]) := by
+      intro q hq; apply hpos q
+      rcases List.mem_append.mp hq with h | h
+      · exact List.mem_append_left _ h
+      · simp only [List.mem_singleton] at h; rw [← h]; simp
+    obtain ⟨R1, v, h1, _, hu1, hi1⟩ := lit_step (vars := vars) hi (hl r (List.mem_cons_self ..)) hwf1 hpos1
+    obtain ⟨R2, V2, h2, hu2, hi2⟩ := ih (fun x hx => hl x (List.mem_cons_of_mem _ hx)) hi1 (by simpa using hwf) (by simpa using hpos)
     refine ⟨R2, V2, by simp only [resolveLoop, h1, h2], hu2.trans hu1, by simpa using hi2⟩
 
 /-! ### one declaration -/
@@ -326,6 +333,11 @@ theorem negU_append (V : List BVal) (un : List (Nat × String)) (e : Nat × Stri
     negU V (un ++ [e]) = (negU V un || (match V[e.1]? with | some (.mon _ n) => decide (n < 0) | _ => false)) := by
   simp [negU, List.any_append]
 
+theorem ofVal_pos {v : Val} (h : ValPos v) : ∀ r, BVal.ofVal v = .portion r → 0 < r.den := by
+  intro r hr
+  cases v <;> simp [BVal.ofVal] at hr
+  subst hr; exact h _ rfl
+
 theorem decl_step {store : Store} {plain : VEnv} {st st0 : CState} {d : VarDecl} {r : Resource} {R0 : Resolved} {V0 : List BVal}
     {env : VEnv} {b : Bool}
     (hfresh : st.varIdx.any (·.1 = d.name) = false) (hidx : VarIdxOK st)
@@ -335,7 +347,7 @@ theorem decl_step {store : Store} {plain : VEnv} {st st0 : CState} {d : VarDecl}
        | .balance acc ae => d.ty = .monetary ∧ ∃ a c st1 s c', visitTyped st .account acc = .ok (a, c, st1) ∧
            visitTyped st1 .asset ae = .ok (s, c', st0) ∧ r = .varBalance d.name a s)
     (hi : RInv store st0.resources st.varIdx R0.vals R0.unresolved V0 env b)
-    (hpl : isPlain d = true → ∃ v, lookupVar plain d.name = some v ∧ (BVal.ofVal v).bty = d.ty.toB) :
+    (hpl : isPlain d = true → ∃ v, lookupVar plain d.name = some v ∧ (BVal.ofVal v).bty = d.ty.toB ∧ ValPos v) :
     match resolveVar1 store plain env d with
     | .error er => resolveOne store (plain.map ofP) R0 r = .error er
     | .ok v => ∃ R1 V1, resolveOne store (plain.map ofP) R0 r = .ok R1 ∧
@@ -358,12 +370,12 @@ theorem decl_step {store : Store} {plain : VEnv} {st st0 : CState} {d : VarDecl}
   | none =>
     rw [hor] at ho
     obtain ⟨_, rfl⟩ := ho
-    obtain ⟨v, hv, hty⟩ := hpl (by simp [isPlain, hor])
+    obtain ⟨v, hv, hty, hvp⟩ := hpl (by simp [isPlain, hor])
     simp only [resolveVar1, hor, hv]
     refine ⟨{ R0 with vals := R0.vals ++ [BVal.ofVal v], involved := involve R0.involved R0.vals.length (BVal.ofVal v) },
       V0 ++ [BVal.ofVal v], ?_, ?_⟩
     · simp only [resolveOne, find_map_ofP, hv, Option.map_some]
-    · refine ⟨hi.fill.snoc_plain _, hi.ctx.snoc _ _ (henv v) hty ⟨v, hself v, rfl⟩, hnames v, ?_⟩
+    · refine ⟨hi.fill.snoc_plain _, hi.ctx.snoc _ _ (henv v) hty ⟨v, hself v, rfl⟩, hnames v, ?_, hi.pos.snoc (ofVal_pos hvp)⟩
       rw [negU_snoc _ hb, hi.neg]
       simp [negDecl, hor]
   | metaOf acc key =>
@@ -381,7 +393,8 @@ theorem decl_step {store : Store} {plain : VEnv} {st st0 : CState} {d : VarDecl}
       | some v =>
         simp only
         refine ⟨_, V0 ++ [BVal.ofVal v], rfl, ?_⟩
-        refine ⟨hi.fill.snoc_plain _, hi.ctx.snoc _ _ (henv v) (parseValue_bty hp) ⟨v, hself v, rfl⟩, hnames v, ?_⟩
+        refine ⟨hi.fill.snoc_plain _, hi.ctx.snoc _ _ (henv v) (parseValue_bty hp) ⟨v, hself v, rfl⟩, hnames v, ?_,
+          hi.pos.snoc (ofVal_pos (parseValue_valPos hp))⟩
         rw [negU_snoc _ hb, hi.neg]
         simp [negDecl, hor]
   | balance acc ae =>
@@ -396,7 +409,8 @@ theorem decl_step {store : Store} {plain : VEnv} {st st0 : CState} {d : VarDecl}
     have hRs : R0.vals[s]? = some (.asset y) := hi.fill.get hVs (by intro _ _ h; cases h)
     simp only [resolveVar1, hor, hx, hy, resolveOne, derefAcct_ok hRa, hRs]
     refine ⟨_, V0 ++ [.mon y (store.balance x y)], rfl, ?_⟩
-    refine ⟨hi.fill.snoc_bal y x, hi.ctx.snoc _ _ (henv _) rfl ⟨.mon y (store.balance x y), hself _, rfl⟩, hnames _, ?_⟩
+    refine ⟨hi.fill.snoc_bal y x, hi.ctx.snoc _ _ (henv _) rfl ⟨.mon y (store.balance x y), hself _, rfl⟩, hnames _, ?_,
+      hi.pos.snoc (by intro r hr; cases hr)⟩
     rw [negU_append, negU_snoc _ hb, hi.neg]
     have : (V0 ++ [BVal.mon y (store.balance x y)])[R0.vals.length]? = some (.mon y (store.balance x y)) := by
       rw [← hi.fill.len]; exact getElem?_snoc_len _ _
@@ -481,9 +495,9 @@ theorem visitVarList_suffix {st st' : CState} {ds : List VarDecl} (h : visitVarL
 /-- **`ResolveResources` over the declarations is `resolveVars`**: same first error, or a resolved table that is
 the value of the resources under `Spec`'s environment once the pending balances are filled in -/
 theorem resolve_sim {store : Store} {plain : VEnv} {ds : List VarDecl}
-    (hpl : ∀ d ∈ ds, isPlain d = true → ∃ v, lookupVar plain d.name = some v ∧ (BVal.ofVal v).bty = d.ty.toB)
+    (hpl : ∀ d ∈ ds, isPlain d = true → ∃ v, lookupVar plain d.name = some v ∧ (BVal.ofVal v).bty = d.ty.toB ∧ ValPos v)
     {st st' : CState} (hv : visitVarList st ds = .ok st') (hidx : VarIdxOK st) (hg : Good st)
-    {suf : List Resource} (hsuf : st'.resources = st.resources ++ suf)
+    {suf : List Resource} (hsuf : st'.resources = st.resources ++ suf) (hpos : TablePos st'.resources)
     {R : Resolved} {V : List BVal} {env : VEnv} {b : Bool} (hi : RInv store st.resources st.varIdx R.vals R.unresolved V env b) :
     match resolveVars store plain ds env with
     | .error er => resolveLoop store (plain.map ofP) suf R = .error er
@@ -516,7 +530,11 @@ theorem resolve_sim {store : Store} {plain : VEnv} {ds : List VarDecl}
         have : st.resources ++ suf = st.resources ++ (lits ++ ([r] ++ suf2)) := by
           rw [← hsuf, hsuf2, hres1, elits]; simp
         exact List.append_cancel_left this
-      obtain ⟨R0, V0, hl0, hu0, hi0⟩ := lits_step (vars := plain.map ofP) hlits hi (by rw [← elits]; exact hg0.wf)
+      have hpos0 : TablePos (st.resources ++ lits) := by
+        intro q hq; apply hpos q
+        rw [hsuf2, hres1, elits]
+        exact List.mem_append_left _ (List.mem_append_left _ hq)
+      obtain ⟨R0, V0, hl0, hu0, hi0⟩ := lits_step (vars := plain.map ofP) hlits hi (by rw [← elits]; exact hg0.wf) hpos0
       rw [← elits] at hi0
       have hds := decl_step (plain := plain) hfresh hidx ho hi0 (hpl d (List.mem_cons_self ..))
       rw [resolveVars_cons, hsufeq, resolveLoop_append, hl0]
